@@ -604,3 +604,140 @@ def rule_hermitian_args(ctx: Ctx, rel: str, quals: List[str]) -> None:
                              f"those of the product", func=q, construct=f"{q}: {base}() of a non-Hermitian product")
     if sites == 0:
         raise AnalysisError(f"{rel}: no eigh / sqrtm_psd / hermitianize call in {quals}")
+
+
+# --------------------------------------------------------------------------- num.spectral-sqrt
+
+
+def rule_spectral_sqrt(ctx: Ctx, rel: str = DMF, fname: str = "sqrtm_psd") -> None:
+    """num.spectral-sqrt: the PSD square root is V diag(sqrt(w)) V^H with (w, V) = eigh(A).  Between eigh and sqrt the eigenvalues may only
+    be clipped from below at exactly 0 (round-off negatives): maximum(w, 0), clip(w, 0, None), where(w > 0, w, 0), abs.  A positive
+    threshold discards genuine small eigenvalues — their square roots are far larger than the threshold — and any other map changes the
+    spectrum; either way the Uhlmann fidelity built on it is wrong for weakly mixed states."""
+    from .. import consteval
+    repo = ctx.repo
+    m = repo.module(rel)
+    fn = repo.anchor(rel, fname)
+    ctx.touch(m, fn)
+    eig = [a for a in ast.walk(fn) if isinstance(a, ast.Assign) and isinstance(a.value, ast.Call) and call_attr(a.value) in ("eigh", "eig")
+           and isinstance(a.targets[0], ast.Tuple) and len(a.targets[0].elts) == 2 and isinstance(a.targets[0].elts[0], ast.Name)]
+    if len(eig) != 1:
+        raise AnalysisError(f"{fname}: `w, V = eigh(A)` not found")
+    w0 = eig[0].targets[0].elts[0].id
+    # default values of parameters are the constants a caller of sqrtm_psd(A) gets
+    env = {}
+    a = fn.args
+    pos = a.posonlyargs + a.args
+    for p_, d in zip(pos[len(pos) - len(a.defaults):], a.defaults):
+        env[p_.arg] = d
+    for p_, d in zip(a.kwonlyargs, a.kw_defaults):
+        if d is not None:
+            env[p_.arg] = d
+    for st in ast.walk(fn):
+        if isinstance(st, ast.Assign) and len(st.targets) == 1 and isinstance(st.targets[0], ast.Name) and isinstance(st.value, (ast.Constant, ast.UnaryOp, ast.BinOp)):
+            env.setdefault(st.targets[0].id, st.value)
+
+    def zero(e) -> bool:
+        try:
+            return consteval.fold(e, env) == 0
+        except Exception:
+            return False
+
+    spectrum = {w0}
+
+    def clip_ok(e):
+        """None when `e` is not a function of the spectrum; (True, '') when it is the spectrum clipped at 0; (False, why) otherwise"""
+        if isinstance(e, ast.Name):
+            return (True, "") if e.id in spectrum else None
+        if not any(isinstance(x, ast.Name) and x.id in spectrum for x in ast.walk(e)):
+            return None
+        if isinstance(e, ast.Call):
+            cn = call_name(e) or ""
+            at = call_attr(e)
+            if cn in ("np.maximum", "numpy.maximum") and len(e.args) == 2:
+                sp = [x for x in e.args if clip_ok(x) is not None]
+                other = [x for x in e.args if clip_ok(x) is None]
+                if len(sp) == 1 and clip_ok(sp[0])[0] and len(other) == 1:
+                    return (True, "") if zero(other[0]) else (False, f"clips the eigenvalues at `{short(other[0])}`, not at 0")
+            if at == "clip":
+                recv = e.args[0] if cn in ("np.clip", "numpy.clip") else e.func.value
+                rest = e.args[1:] if cn in ("np.clip", "numpy.clip") else e.args
+                lo = rest[0] if rest else (get_kw(e, "a_min") or get_kw(e, "min"))
+                hi = rest[1] if len(rest) > 1 else (get_kw(e, "a_max") or get_kw(e, "max"))
+                r = clip_ok(recv)
+                if r and r[0]:
+                    if lo is not None and not zero(lo):
+                        return (False, f"clips the eigenvalues at `{short(lo)}`, not at 0")
+                    if hi is not None and not (isinstance(hi, ast.Constant) and hi.value is None):
+                        return (False, f"caps the eigenvalues at `{short(hi)}`")
+                    return (True, "")
+            if cn in ("np.where", "numpy.where") and len(e.args) == 3 and isinstance(e.args[0], ast.Compare) and len(e.args[0].ops) == 1:
+                c = e.args[0]
+                l, r_ = c.left, c.comparators[0]
+                keep_first = None
+                if isinstance(c.ops[0], (ast.Gt, ast.GtE)) and clip_ok(l) and clip_ok(l)[0]:
+                    keep_first, thr = True, r_
+                elif isinstance(c.ops[0], (ast.Lt, ast.LtE)) and clip_ok(r_) and clip_ok(r_)[0]:
+                    keep_first, thr = True, l
+                elif isinstance(c.ops[0], (ast.Lt, ast.LtE)) and clip_ok(l) and clip_ok(l)[0]:
+                    keep_first, thr = False, r_
+                elif isinstance(c.ops[0], (ast.Gt, ast.GtE)) and clip_ok(r_) and clip_ok(r_)[0]:
+                    keep_first, thr = False, l
+                if keep_first is not None:
+                    kept, repl = (e.args[1], e.args[2]) if keep_first else (e.args[2], e.args[1])
+                    k = clip_ok(kept)
+                    if k and k[0] and zero(repl):
+                        return (True, "") if zero(thr) else (False, f"zeroes every eigenvalue below `{short(thr)}`, not only the negative round-off")
+            if cn in ("np.abs", "np.absolute", "abs", "np.real", "np.real_if_close") and len(e.args) >= 1:
+                r = clip_ok(e.args[0])
+                if r:
+                    return r
+        return (False, f"`{short(e)}` is not a clip of the eigenvalues at 0")
+
+    bad = []
+    order = sorted([st for st in ast.walk(fn) if isinstance(st, (ast.Assign, ast.AugAssign))], key=lambda st: (st.lineno, st.col_offset))
+    for st in order:
+        if st is eig[0]:
+            continue
+        if isinstance(st, ast.AugAssign):
+            if isinstance(st.target, ast.Name) and st.target.id in spectrum:
+                bad.append((st, f"`{short(st)}` rescales the eigenvalues"))
+            continue
+        t = st.targets[0]
+        base = t
+        while isinstance(base, ast.Subscript):
+            base = base.value
+        if not isinstance(base, ast.Name):
+            continue
+        r = clip_ok(st.value)
+        if isinstance(t, ast.Subscript) and base.id in spectrum:
+            # w[w < 0] = 0
+            sl = t.slice
+            if isinstance(sl, ast.Compare) and len(sl.ops) == 1 and isinstance(sl.ops[0], (ast.Lt, ast.LtE)) and zero(sl.comparators[0]) and zero(st.value):
+                continue
+            bad.append((st, f"`{short(st)}` overwrites eigenvalues other than the negative round-off"))
+            continue
+        if r is None:
+            continue
+        if r[0]:
+            spectrum.add(base.id)
+        else:
+            bad.append((st, r[1]))
+            spectrum.add(base.id)
+    sq = [c for c in calls_in(fn) if (call_name(c) or "") in ("np.sqrt", "numpy.sqrt", "sqrt") and c.args]
+    rets = [r for r in ast.walk(fn) if isinstance(r, ast.Return) and r.value is not None]
+    used = [c for c in sq if clip_ok(c.args[0]) is not None]
+    if not used:
+        ctx.fail("num.spectral-sqrt", m, fn, f"{fname} does not take the square root of the eigenvalues returned by eigh", func=fname,
+                 construct=f"{fname}: no sqrt of the spectrum")
+        return
+    for c in used:
+        r = clip_ok(c.args[0])
+        if not r[0]:
+            bad.append((c, r[1]))
+    if bad:
+        for node, why in bad:
+            ctx.fail("num.spectral-sqrt", m, node, f"{fname}: {why}; only a clip of round-off negatives at exactly 0 leaves sqrt(A) intact "
+                     "(an eigenvalue of 1e-9 contributes 3e-5 to Tr sqrt)", func=fname, construct=f"{fname}: {why}")
+    else:
+        ctx.ok("num.spectral-sqrt", m, used[0], what="sqrt of the eigh spectrum, clipped at 0 only")
